@@ -246,6 +246,8 @@ Proof.
       rewrite Ln2, Le3, Ln1, Le0, rev_app_distr, map_app, app_assoc. reflexivity.
   - intros k body IH Hw. discriminate.
   - intros Hw. discriminate.
+  - intros a b n o m Hw. discriminate.
+  - intros q ip a b n Hw. discriminate.
   - intros _ st c st' ar H F. inv_ok H. exists []. rewrite app_nil_r. cbn. split; [auto|split; [auto|split; [auto|split; [apply dwf_nil|reflexivity]]]].
   - intros s IHs b IHb Hw st c st' ar H F. cbn [bwfs] in Hw.
     apply andb_prop in Hw. destruct Hw as [Hw1 Hw2].
@@ -535,7 +537,7 @@ Proof. intros [[] i] m; cbn; discriminate. Qed.
 
 Lemma Inv_reset : forall st, Inv st -> l_lv st = [] -> Inv (reset_block st) /\ BlockStart (reset_block st).
 Proof.
-  intros st [A B C C' D E F G] Hl.
+  intros st [A B C C' D E F G LA LM] Hl.
   assert (NoM : forall r m, alook r (stale_rf (l_rf st)) <> Some (Rg BM m)).
   { intros r m H. rewrite alook_stale in H. destruct (alook r (l_rf st)) as [g|]; cbn in H; [|discriminate].
     inv_ok H. eapply stale1_not_M; eauto. }
@@ -546,6 +548,7 @@ Proof.
       inv_ok H. destruct (C _ _ Eg) as [(m & ->)| ->]; right; reflexivity.
     + intros r r' m H. exfalso. eapply NoM; eauto.
     + intros g [].
+    + apply repeat_length.
   - constructor; cbn; auto.
 Qed.
 
